@@ -111,24 +111,26 @@ class BuiltinMixin:
         if rest is None:
             return out
         rest2 = rest
-        for c in self.method_classes('__str__'):
-            subs = [k for k in self.w.subclasses(c) if (self.w.find_method(k, '__str__') or (None,))[0] == c
-                    and not k.startswith('$')]
-            if not subs:
-                continue
-            cond = z3.And(V.is_obj(v), z3.Or([clsof(V.ref(v)) == self.cid(k) for k in subs]))
-            x, rest2 = self.split(rest2, cond, strong=True)
-            if x is not None:
-                out.extend(self.call_method(x, v, c, '__str__', [], {}))
-            if rest2 is None:
-                return out
         cs = self.contracts.get('$str')
         if cs is not None:
+            # dynamic dispatch of __str__ is summarised by the class-indexed contract family: str(o) == pr(o)
             x, rest2 = self.split(rest2, V.is_obj(v))
             if x is not None:
                 out.extend(self.apply_contract(x, cs, [v], {}))
             if rest2 is None:
                 return out
+        else:
+            for c in self.method_classes('__str__'):
+                subs = [k for k in self.w.subclasses(c) if (self.w.find_method(k, '__str__') or (None,))[0] == c
+                        and not k.startswith('$')]
+                if not subs:
+                    continue
+                cond = z3.And(V.is_obj(v), z3.Or([clsof(V.ref(v)) == self.cid(k) for k in subs]))
+                x, rest2 = self.split(rest2, cond, strong=True)
+                if x is not None:
+                    out.extend(self.call_method(x, v, c, '__str__', [], {}))
+                if rest2 is None:
+                    return out
         out.append((rest2, 'ok', V.str(pystr(self.val(rest2, v)))))
         return out
 
@@ -465,9 +467,9 @@ class BuiltinMixin:
         return out
 
     # ---- dict methods
-    def _dictlike(self, st, recv, f):
+    def _dictlike(self, st, recv, f, readonly=False):
         out = []
-        a, b = self.split(st, self.is_dictlike(st, recv))
+        a, b = self.split(st, self.is_maplike(st, recv) if readonly else self.is_dictlike(st, recv))
         if a is not None:
             out.extend(f(a))
         if b is not None:
@@ -582,7 +584,7 @@ class BuiltinMixin:
             K = keys_of(m)
             self.stubs.keys_wf(self, s, m)
             return ok(s, SIter(z3.Length(K), lambda j: mk(m, K[j]), 'dict'))
-        return self._dictlike(st, recv, f)
+        return self._dictlike(st, recv, f, readonly=True)
 
     def m_items(self, st, recv, pos, kw):
         return self._keys_iter(st, recv, lambda m, k: V.tuple(mk_seq([V.str(k), z3.Select(m, k)])))
